@@ -569,6 +569,16 @@ class NumpyModel:
     def apply_imgcorr(self, interp, o, l, r, node, out):
         base, corr = (l, r) if r.imgcorr is not None else (r, l)
         kind, diff = corr.imgcorr
+        btxt = None
+        if isinstance(node, ast.BinOp):
+            btxt = norm_text(node.left if corr is r else node.right)
+        elif isinstance(node, ast.AugAssign):
+            btxt = norm_text(node.target)
+        stxt = corr.intpart_of[0] if corr.intpart_of else None
+        if kind == 'round' and btxt is not None and stxt is not None and not (stxt == btxt or stxt.startswith(btxt + ' - ')):
+            # the integer part was computed from a different array (e.g. one frame only): not a reduction of this value
+            interp.emit('image_correction', node, how='mismatch', diff=diff, base=base, source=stxt)
+            return out.w(geo=base.geo, imgcorr=None)
         interp.emit('image_correction', node, how=kind, diff=diff, base=base)
         if is_frac(base.geo) or is_fdiff(base.geo):
             # rounding / single-step corrections reduce every component to [-0.5, 0.5] ("componentwise"): this is the minimum
